@@ -69,8 +69,8 @@ CLAIMED = {
     "C13": dict(
         engine="store", category="model_checking", design_ref="DESIGN.md §7 C13",
         technique="TLA+ specs RdfStore.tla (set semantics of every lookup) and MC_RdfIndex.tla (index mechanism mirrors the set, model-checked by TLC); recorded histories of the real RdfStore validated by TLC with the full projection after every call; SparqlSem.tla, an executable definition of the SPARQL algebra, evaluated by TLC as the oracle for generated queries and updates run through execute_sparql",
-        text="TLC checks that the subject/predicate/object index mechanism mirrors the set over all histories of the bounded model; every call result and the complete projection (find for all 48 bound/unbound patterns, triples_with_*, term listings, len, stats, contains, find_with_pending) of random insert/remove/clear/transactional-buffer histories on the real store, with and without the object index, over IRIs / blank nodes / plain, language-tagged and typed literals, is validated against the set semantics, each result once. SPARQL: histories of INSERT DATA / DELETE DATA and generated SELECT queries (1-3 triple patterns with shared variables and variable predicates, FILTER =, !=, <, >, BOUND, OPTIONAL, UNION nested to depth 2, DISTINCT, LIMIT, COUNT(*)); TLC computes the solution multiset and compares.",
-        note="SPARQL terms are IRIs, plain strings and small integers under a fixed predicate schema; ORDER BY, paths, sub-queries, GRAPH, other aggregates and CONSTRUCT / ASK are not generated."),
+        text="TLC checks that the subject/predicate/object index mechanism mirrors the set over all histories of the bounded model; every call result and the complete projection (find for all 48 bound/unbound patterns, triples_with_*, term listings, len, stats, contains, find_with_pending) of random insert/remove/clear/transactional-buffer histories on the real store, with and without the object index, over IRIs / blank nodes / plain, language-tagged and typed literals, is validated against the set semantics, each result once. SPARQL: histories of INSERT DATA / DELETE DATA and generated SELECT queries (1-3 triple patterns with shared variables and variable predicates, FILTER =, !=, <, >, BOUND, OPTIONAL, UNION nested to depth 2, DISTINCT, ORDER BY, LIMIT, COUNT(*)); TLC computes the solution multiset and compares.",
+        note="SPARQL terms are IRIs, plain strings and small integers under a fixed predicate schema; property paths, sub-queries, GRAPH, other aggregates and CONSTRUCT / ASK are not generated."),
     "C20": dict(
         engine="conc", category="model_checking", design_ref="DESIGN.md §7 C20",
         technique="TLA+ specs RdfConc / TxConc / BufMgr (one action per critical section) model-checked by TLC over all interleavings; real threads run under a yield-point controller (cfg grafeo_verif) with enumerated, random and TLC-counterexample schedules; recorded schedules validated against the specs by TLC",
